@@ -223,3 +223,22 @@ W void w_hist_add_str_fail(int32_t a, int32_t b, const char* p, Hist* h) {
   bool ok2 = doc.add(b); h->calls_after = arena.calls; h->ok_mask = (ok1 ? 1 : 0) | (ok2 ? 2 : 0); observe_arr(doc, h); }
   h->frees = arena.n_free;
 }
+// ---- 2-D copyArray (C13): [[a,b,x],[c]] into int dst[2][2] placed inside guard cells; and int src[2][2] into a document
+W size_t w_copyarray_2d_out(int32_t a, int32_t b, int32_t x, int32_t c, int32_t* guarded /* 6 ints, [1..4] is int dst[2][2] */) {
+  arena.reset(); JsonDocument doc(&arena); JsonArray r0 = doc.add<JsonArray>(); r0.add(a); r0.add(b); r0.add(x); JsonArray r1 = doc.add<JsonArray>(); r1.add(c);
+  int32_t dst[2][2] = {{guarded[1], guarded[2]}, {guarded[3], guarded[4]}};
+  copyArray(doc.as<JsonArrayConst>(), dst);
+  guarded[1] = dst[0][0]; guarded[2] = dst[0][1]; guarded[3] = dst[1][0]; guarded[4] = dst[1][1]; return doc.size();
+}
+W unsigned w_copyarray_2d_in(int32_t a, int32_t b, int32_t c, int32_t d, int32_t* out /* 4 */, unsigned* sizes /* 3: outer, row0, row1 */) {
+  arena.reset(); JsonDocument doc(&arena); int32_t src[2][2] = {{a, b}, {c, d}}; bool ok = copyArray(src, doc);
+  JsonArrayConst o = doc.as<JsonArrayConst>(); sizes[0] = unsigned(o.size()); sizes[1] = unsigned(o[0].size()); sizes[2] = unsigned(o[1].size());
+  out[0] = o[0][0].as<int32_t>(); out[1] = o[0][1].as<int32_t>(); out[2] = o[1][0].as<int32_t>(); out[3] = o[1][1].as<int32_t>(); return ok;
+}
+// ---- nested value removed: [[a,b],c]; remove(0) releases the inner array's slots too; three adds then need no allocator call
+W void w_hist_nested_remove(int32_t a, int32_t b, int32_t c, int32_t d, Hist* h) {
+  arena.reset(); { JsonDocument doc(&arena); JsonArray r0 = doc.add<JsonArray>(); r0.add(a); r0.add(b); doc.add(c);     // 4 slots = one pool
+  doc.remove(0); h->calls_before = arena.calls; unsigned m = 0;
+  m |= doc.add(d) ? 1 : 0; m |= doc.add(d) ? 2 : 0; m |= doc.add(d) ? 4 : 0; h->calls_after = arena.calls; h->ok_mask = m; observe_arr(doc, h); }
+  h->frees = arena.n_free;
+}
